@@ -345,6 +345,16 @@ func runC17(c *mon.Ctx) {
 			c.Count("explicit_vs_auto_collision_histories")
 		}
 	}
+	// the same with explicit PIDs added out of ascending order (a high PID first, then the next automatic candidate)
+	for k := int64(1); k <= c.Pick(200, 5000); k++ {
+		if !c.Mine("collide", k) {
+			continue
+		}
+		r := c.Rng("collide", k)
+		hr := runHistory(autoCollisionScenario(r), 1+r.IntN(5))
+		tablesOracle(c, "C17", "collide", k, hr, true)
+		c.Count("explicit_vs_auto_collision_histories")
+	}
 	// random histories
 	n := c.Pick(2000, 200000)
 	for i := int64(0); i < n; i++ {
